@@ -23,6 +23,22 @@ def main():
   tier = args.tier if args.tier in ('quick', 'thorough') else 'quick'
   pid = args.pid.upper()
   mod = importlib.import_module('props.' + pid.lower())
+  # watchdog: a check that cannot finish is an error of the check (exit 2), never a violation and never a hang
+  import signal
+  limit = int(os.environ.get('VERIF_MAX_WALL', '2400' if tier == 'quick' else '18000'))
+
+  def on_alarm(signum, frame):
+    print('%s: did not finish within %d s (exit 2)' % (pid, limit))
+    sys.stdout.flush()
+    import multiprocessing
+    for child in multiprocessing.active_children():
+      try:
+        child.kill()
+      except Exception:  # noqa: BLE001
+        pass
+    os._exit(2)
+  signal.signal(signal.SIGALRM, on_alarm)
+  signal.alarm(limit)
   ck = core.Check(pid, tier, seed)
   ck.debug_no_lean = bool(args.no_lean)
   if args.replay:
